@@ -1,5 +1,5 @@
 import CaddyModel.Util.DrvMain
-import CaddyModel.C17.Witness
+import CaddyModel.C17.Driver
 
 def main (args : List String) : IO Unit :=
   CaddyModel.drvMain "C17" CaddyModel.C17.handle CaddyModel.C17.witnessLines args
